@@ -2,7 +2,9 @@
    Print Assumptions is run on every Theorem by bin/check. *)
 From Coq Require Import List NArith ZArith Bool Lia.
 From V Require Import C12.Model C13.Model C13.Proofs C13.Proofs_Votes C13.Proofs_Replay C13.Proofs_Commit C13.Proofs_Resume
-  C13.Proofs_Obs C13.Proofs_ObsStep C13.Proofs_Crash C13.Proofs_Inv C13.Proofs_Final C13.Proofs_State C13.Proofs_Tail C13.Proofs_Lives.
+  C13.Proofs_Obs C13.Proofs_ObsStep C13.Proofs_Crash C13.Proofs_Inv C13.Proofs_Final C13.Proofs_State C13.Proofs_Tail C13.Proofs_Lives
+  C13.Proofs_Wal C13.Proofs_Plain C13.Proofs_Stop C13.Proofs_Log C13.Proofs_Sync C13.Proofs_Story.
+From V Require C12.Proofs_Sim C12.Proofs_CfgEq C12.Props.
 Import ListNotations.
 Open Scope N_scope.
 
@@ -342,4 +344,319 @@ Example ex_world_after_two_kills :
    (let effs2 := flat (snd (lifetime ex_env_fixed H1 D1 3 ex_ins)) in
     let H2 := resume_height H1 (firstn 2 effs2) in let D2 := crash_at 2 effs2 D1 in
     no_conflict (firstn 12 effs1 ++ firstn 2 effs2) (flat (snd (lifetime ex_env_fixed H2 D2 9 ex_ins))) = true)).
+Proof. vm_compute. repeat split; reflexivity. Qed.
+
+(* ====================================================================================================
+   2026-09-26.  (A) the per-run assumption about rejected messages is discharged with C12's vote-counter
+   invariant, "same consensus state" is C12's st_sim, the state-level statements hold for any number of
+   lives; (B) lives that end through the regular return path of driver.Run (refusing commit listener,
+   failing store call, cancelled context: the deferred Close flushes what is pending).
+   ==================================================================================================== *)
+Notation st_sim := C12.Proofs_Sim.st_sim.
+
+(* ---------- (A1) plain_run: good_run without "a rejected message leaves its counter cell unchanged" ---------- *)
+(* C12/Proofs_WalReplay.v: every counter a state machine reaches is well-formed (rd_wf: a ballot in a per-id / nil
+   set is in allVotes, uncountedProposerPower > 0 only while the proposer has not voted), and on a well-formed
+   counter a rejected proposal / vote changes no cell (vc_add_proposal_reject, vc_add_vote_reject).  So the clause
+   holds in every run and every theorem stated with good_run / live_good holds with plain_run / live_plain. *)
+Theorem C13_plain_run_is_good_run : forall E h0 ins, plain_run E h0 ins = true -> good_run E h0 ins = true.
+Proof. exact plain_run_good. Qed.
+Theorem C13_live_plain_is_live_good : forall E H D n ins,
+  live_plain E (fst (recover E H D n)) ins = true -> live_good E (fst (recover E H D n)) ins = true.
+Proof. exact live_plain_good_recover. Qed.
+
+Theorem C13_no_conflict_plain : forall E, value_deterministic E -> quorum_positive E ->
+  forall h0 ins1 k n2 ins2, plain_run E h0 ins1 = true ->
+  (let '(pre, post) := crash_restart E h0 ins1 k n2 ins2 in
+   life_disc E (resume_height h0 pre) (crash_at k (flat (snd (lifetime E h0 [] 0 ins1))) []) n2 ins2 = true ->
+   no_conflict pre (flat (snd post)) = true).
+Proof. exact no_conflict_plain_run. Qed.
+
+(* C13_replay_prefix / C13_same_final_state with plain_run, and up to st_sim: all scalar fields INCLUDING
+   lastTriggerSync / lastQuorum and equal round data in every cell - provided no call of the recovery returns
+   TriggerSync (replay_quiet, executable; C13_recovery_trigger_sync_refuted below: it can) *)
+Theorem C13_replay_prefix_st_sim : forall E h0 ins1 k n2,
+  value_deterministic E -> quorum_positive E -> plain_run E h0 ins1 = true ->
+  let effs := flat (snd (lifetime E h0 [] 0 ins1)) in
+  let pre := firstn k effs in
+  let H' := resume_height h0 pre in
+  let D' := crash_at k effs [] in
+  (exists sd rest, In (sd, rest) (life_states E h0 ins1) /\
+     obs_eq (d_sm (fst (recover E H' D' n2))) sd /\
+     (replay_quiet E H' D' n2 = true -> st_sim (d_sm (fst (recover E H' D' n2))) sd)) /\
+  (forall kd v, In v (votes_in kd pre) -> H' <= v_h v -> In v (votes_in kd (flat (snd (recover E H' D' n2))))).
+Proof. exact replay_prefix_sim. Qed.
+
+Theorem C13_same_final_state_st_sim : forall E h0 ins1 k n2,
+  value_deterministic E -> quorum_positive E -> plain_run E h0 ins1 = true ->
+  let effs := flat (snd (lifetime E h0 [] 0 ins1)) in
+  let pre := firstn k effs in
+  let H' := resume_height h0 pre in
+  let D' := crash_at k effs [] in
+  exists sd rest, In (sd, rest) (life_states E h0 ins1) /\
+    obs_eq (d_sm (fst (recover E H' D' n2))) sd /\
+    obs_eq (d_sm (fst (lifetime E H' D' n2 rest))) (d_sm (fst (lifetime E h0 [] 0 ins1))) /\
+    (replay_quiet E H' D' n2 = true -> live_plain E (fst (recover E H' D' n2)) rest = true ->
+     st_sim (d_sm (fst (lifetime E H' D' n2 rest))) (d_sm (fst (lifetime E h0 [] 0 ins1)))).
+Proof. exact same_final_sim. Qed.
+
+(* obs_eq and st_sim differ by the sync bookkeeping only, and that only moves in a call that returns TriggerSync *)
+Theorem C13_obs_eq_plus_sync_is_st_sim : forall a b, obs_eq a b -> ltq a = ltq b -> st_sim a b.
+Proof. exact obs_ltq_sim. Qed.
+Theorem C13_sync_bookkeeping_moves_with_trigger_only : forall E s n i,
+  has_trigger (snd (sm_step E s n i)) = false -> ltq (fst (fst (sm_step E s n i))) = ltq s.
+Proof. exact sm_step_ltq. Qed.
+
+(* C12_wal_replay_same_state read for the driver's state machine: for the calls made with one (height, round)
+   environment, what a restarted process (another Application object, n vs m earlier Value() calls) re-derives
+   from the entries they logged is what the calls did - same state up to st_sim, same actions. *)
+Theorem C13_height_round_replay_by_C12 : forall E, value_deterministic E -> quorum_positive E -> forall h r n m ins,
+  wal_disciplined (cfg_at E h r n) (init_state h) ins = true ->
+  st_sim (fst (replay_wal (cfg_at E h r m) (init_state h) (wal_written (snd (run (cfg_at E h r n) (init_state h) ins)))))
+         (fst (run (cfg_at E h r n) (init_state h) ins)) /\
+  replay_actions (snd (replay_wal (cfg_at E h r m) (init_state h) (wal_written (snd (run (cfg_at E h r n) (init_state h) ins))))) =
+  all_actions (snd (run (cfg_at E h r n) (init_state h) ins)).
+Proof. exact height_round_replay_by_C12. Qed.
+
+(* ---------- (B) any number of lives, ended in any way ---------- *)
+(* Worlds2 (Model.v): initially an empty log at h0 >= 1; then any number of lives, each recovering from what its
+   predecessor left and running a plain live phase, ended EITHER by a kill after any number k of its effects OR
+   through the regular return path of driver.Run after k effects with Close flushing what is pending (stop_ok:
+   nothing pending, or only timers / broadcasts until the next Flush or the end of the life - i.e. a failing
+   Flush, a SetWALEntry that stored and reported an error, the end of a call; every other return of Run happens
+   right after a Flush).  A refused commit callback is NOT an effect: it does not count as a completed commit. *)
+Theorem C13_worlds2_coherent : forall E, value_deterministic E -> quorum_positive E ->
+  forall H D EH, Worlds2 E H D EH -> Coh E H D EH.
+Proof. exact Worlds2_Coh. Qed.
+
+Theorem C13_no_conflict_after_any_endings : forall E, value_deterministic E -> quorum_positive E ->
+  forall H D EH n ins, Worlds2 E H D EH ->
+  listen_disc E (fst (starts E SFUEL (fst (recover E H D n)))) ins = true ->
+  no_conflict EH (flat (snd (lifetime E H D n ins))) = true /\ life_disc E H D n ins = true.
+Proof. exact no_conflict_any_endings. Qed.
+
+Theorem C13_resume_height_after_any_endings : forall E, value_deterministic E -> quorum_positive E ->
+  forall H D EH n ins, Worlds2 E H D EH ->
+  listen_disc E (fst (starts E SFUEL (fst (recover E H D n)))) ins = true ->
+  consecutive_from H (commits_in (flat (snd (lifetime E H D n ins)))) = true /\
+  s_h (d_sm (fst (lifetime E H D n ins))) = H + N.of_nat (length (commits_in (flat (snd (lifetime E H D n ins))))).
+Proof. exact resume_any_endings. Qed.
+
+(* the state recovered in a reachable world is the state the log stands for: a fresh state machine at the
+   resume height given exactly the durable entries (logged_state: those of the resume height through the
+   Process* calls in log order, those above it counted) *)
+Theorem C13_recovered_state_is_logged_state : forall E, value_deterministic E -> quorum_positive E ->
+  forall H D EH n, Worlds2 E H D EH ->
+  obs_eq (d_sm (fst (recover E H D n))) (logged_state E H (entries_of D)) /\
+  (replay_quiet E H D n = true -> st_sim (d_sm (fst (recover E H D n))) (logged_state E H (entries_of D))).
+Proof. exact recovered_logged_w. Qed.
+
+(* ... and so is the state of a life at the end of its inputs, for everything it appended (flushed or not) *)
+Theorem C13_live_state_is_logged_state : forall E, value_deterministic E -> quorum_positive E ->
+  forall H D EH n ins, Worlds2 E H D EH -> live_plain E (fst (recover E H D n)) ins = true ->
+  let d := fst (lifetime E H D n ins) in
+  let A := entries_of (w_durable (d_wal d) ++ w_pending (d_wal d)) in
+  obs_eq (d_sm d) (logged_state E (s_h (d_sm d)) A) /\
+  (replay_quiet E H D n = true -> st_sim (d_sm d) (logged_state E (s_h (d_sm d)) A)).
+Proof. exact live_logged_w. Qed.
+
+(* after a kill at ANY point of ANY life (any number of earlier kills / stops): the state reached by replaying
+   the durable log equals the state of a crash-free run - any life, in any reachable world, that was never
+   killed - whose logged inputs at or above the height are exactly the durable ones *)
+Theorem C13_recovered_state_is_crash_free_run : forall E, value_deterministic E -> quorum_positive E ->
+  forall H D EH n H2 D2 EH2 n2 ins2,
+  Worlds2 E H D EH -> Worlds2 E H2 D2 EH2 -> live_plain E (fst (recover E H2 D2 n2)) ins2 = true ->
+  let d2 := fst (lifetime E H2 D2 n2 ins2) in
+  s_h (d_sm d2) = H ->
+  above_f H (entries_of D) = above_f H (entries_of (w_durable (d_wal d2) ++ w_pending (d_wal d2))) ->
+  obs_eq (d_sm (fst (recover E H D n))) (d_sm d2) /\
+  (replay_quiet E H D n = true -> replay_quiet E H2 D2 n2 = true -> st_sim (d_sm (fst (recover E H D n))) (d_sm d2)).
+Proof. exact recovered_is_crash_free_run_w. Qed.
+
+(* regular shutdown: a life that consumed its inputs and returned through Close (flush succeeded) is, after the
+   restart at the height it had reached, in the state it left *)
+Theorem C13_stop_restart_same_state : forall E, value_deterministic E -> quorum_positive E ->
+  forall H D EH n ins n', Worlds2 E H D EH -> live_plain E (fst (recover E H D n)) ins = true ->
+  let effs := flat (snd (lifetime E H D n ins)) in
+  let d := fst (lifetime E H D n ins) in
+  let H' := resume_height H effs in
+  let D' := stop_disk (length effs) effs D in
+  s_h (d_sm d) = H' /\
+  obs_eq (d_sm (fst (recover E H' D' n'))) (d_sm d) /\
+  (replay_quiet E H D n = true -> replay_quiet E H' D' n' = true -> st_sim (d_sm (fst (recover E H' D' n'))) (d_sm d)).
+Proof. exact stop_restart_same_w. Qed.
+
+(* ---------- what the log directory holds, for ANY life (no hypothesis at all), whatever way it ends ---------- *)
+(* at the moment of every broadcast / commit callback nothing is pending in the log: whatever was appended
+   (or pruned) before is on disk, so no later failure can make the log claim less than what was visible *)
+Theorem C13_nothing_pending_when_visible : forall E h D n ins l1 x l2,
+  flat (snd (lifetime E h D n ins)) = l1 ++ x :: l2 -> is_visible x = true ->
+  w_pending (apply_effects (mkWal D []) l1) = [].
+Proof. exact nothing_pending_when_visible. Qed.
+Theorem C13_clean_when_visible : forall E h D n ins,
+  clean_when_visible false (flat (snd (lifetime E h D n ins))) = true.
+Proof. exact lifetime_clean. Qed.
+
+(* a prune record that a life adds to the directory (kill after k effects, or return through Close) stands for a
+   commit callback that returned true in that life: the log of a height whose commit did not complete is kept *)
+Theorem C13_prune_only_after_completed_commit : forall E h D n ins fl k g,
+  let effs := flat (snd (lifetime E h D n ins)) in
+  In (RPrune g) (end_disk fl k effs D) -> In (RPrune g) D \/ In g (commits_in (firstn k effs)).
+Proof. exact end_disk_prunes. Qed.
+Theorem C13_prunes_follow_commit_callback : forall E h D n ins,
+  prunes_follow_cb None (flat (snd (lifetime E h D n ins))) = true.
+Proof. exact lifetime_pf_none. Qed.
+
+(* every entry appended before a visible effect is read back (LoadAllEntries) from the directory the life leaves,
+   unless a prune record on that disk covers its height *)
+Theorem C13_durable_log_covers_visible : forall E h D n ins fl k,
+  let effs := flat (snd (lifetime E h D n ins)) in
+  log_covers_visible (pruned_upto (end_disk fl k effs D)) (firstn k effs) (load (end_disk fl k effs D)) = true.
+Proof. exact end_disk_covers. Qed.
+
+(* in a reachable world: ... unless its height is at or below the last COMPLETED commit (the predicate the
+   harness evaluates on the driver's effects and the entries read back from its directory) *)
+Theorem C13_log_keeps_uncommitted_heights : forall E, value_deterministic E -> quorum_positive E ->
+  forall H D EH n ins k fl, Worlds2 E H D EH -> live_plain E (fst (recover E H D n)) ins = true ->
+  let effs := flat (snd (lifetime E H D n ins)) in
+  (fl = true -> stop_ok D effs k = true) ->
+  log_covers_visible (resume_height H (firstn k effs) - 1) (firstn k effs) (load (end_disk fl k effs D)) = true.
+Proof. exact log_keeps_uncommitted. Qed.
+
+(* the fault scripts of the correspondence run (Model.fault_outcome: the first store call / commit callback at or
+   after effect k fails, performed or not; the context is cancelled after k effects): whatever the script, the life
+   performed a PREFIX of the effects of the fault-free life on the same inputs - so the theorems above, which speak
+   about firstn k of a life's effects and the two ways the log can be left (end_disk), cover it *)
+Theorem C13_fault_outcome_is_a_prefix : forall tr f,
+  flat (o_steps (fault_outcome tr f)) = firstn (length (flat (o_steps (fault_outcome tr f)))) (flat tr).
+Proof. exact fault_outcome_prefix. Qed.
+
+(* ---------- examples: a refusing listener, a failing flush, a shutdown ---------- *)
+(* the committing life of ex_every_kill_point (24 effects; the commit callback is effect number 15) *)
+Definition ex_tr := snd (lifetime ex_env_fixed 1 [] 0 ex_ins).
+Definition ex_effs := flat ex_tr.
+Example ex_listener_refuses :
+  nth_error ex_effs 15 = Some (CommitCb 1 7) /\
+  (let o := fault_outcome ex_tr (FFail 15 false true) in
+   let pre := flat (o_steps o) in
+   o_failed o = Some (CommitCb 1 7) /\ length pre = 15%nat /\ commits_in pre = [] /\
+   stop_ok [] ex_effs 15 = true /\
+   let D := end_disk (o_flushed o) 15 ex_effs [] in
+   (* the whole log of height 1 is still there, nothing was pruned *)
+   pruned_upto D = 0 /\ length (load D) = 6%nat /\
+   (* restarted at height 1 (the commit did not complete): the replay re-derives the commit, the callback is called again *)
+   let post := lifetime ex_env_fixed (resume_height 1 pre) D 5 ex_ins in
+   resume_height 1 pre = 1 /\ commits_in (flat (snd post)) = [1] /\
+   no_conflict pre (flat (snd post)) = true /\ replay_covers (at_or_above 1 pre) (flat (snd post)) = true /\
+   log_covers_visible 0 pre (load D) = true).
+Proof. vm_compute. repeat split; reflexivity. Qed.
+
+(* every store call / the callback fails (performed or not, Close flushing or not) and the context is cancelled at
+   every point: the world left satisfies the hypothesis of the theorems (where Close flushed: stop_ok, or the life
+   stopped at the end of a call, which is the end of a life with fewer inputs), the restarted
+   life is disciplined, does not conflict, commits consecutively, and the log covers what was visible *)
+Definition ex_faults : list fault :=
+  flat_map (fun k => [FFail k false true; FFail k false false; FFail k true true; FFail k true false;
+                      FCancel k true; FCancel k false]) (seq 0 26).
+Example ex_every_way_out :
+  forallb (fun f =>
+    let o := fault_outcome ex_tr f in
+    let pre := flat (o_steps o) in
+    let k := length pre in
+    let D := end_disk (o_flushed o) k ex_effs [] in
+    let h1 := resume_height 1 pre in
+    let post := lifetime ex_env_fixed h1 D 5 ex_ins in
+    o_valid o &&
+    (negb (o_flushed o) || stop_ok [] ex_effs k ||
+     (* the end of a call = the end of the life that was given only the inputs up to that call *)
+     existsb (fun j => Nat.eqb k (length (flat (snd (lifetime ex_env_fixed 1 [] 0 (firstn j ex_ins)))))) (seq 0 8)) &&
+    list_eqb (fun a b => true) pre (firstn k ex_effs) &&
+    life_disc ex_env_fixed h1 D 5 ex_ins && no_conflict pre (flat (snd post)) &&
+    consecutive_from h1 (commits_in (flat (snd post))) &&
+    log_covers_visible (h1 - 1) pre (load D) && prunes_follow_cb None pre && clean_when_visible false pre)
+    ex_faults = true.
+Proof. vm_compute. reflexivity. Qed.
+
+(* regular shutdown at the end of the inputs, Close flushes, restart: same state (st_sim as a boolean) *)
+Example ex_stop_restart_same_state :
+  let d := fst (lifetime ex_env_fixed 1 [] 0 ex_ins) in
+  let D' := stop_disk (length ex_effs) ex_effs [] in
+  let H' := resume_height 1 ex_effs in
+  plain_run ex_env_fixed 1 ex_ins = true /\ replay_quiet ex_env_fixed H' D' 9 = true /\
+  st_sim_b (d_sm (fst (recover ex_env_fixed H' D' 9))) (d_sm d) = true /\
+  st_sim_b (d_sm d) (logged_state ex_env_fixed H' (entries_of D')) = true.
+Proof. vm_compute. repeat split; reflexivity. Qed.
+
+(* ---------- st_sim can fail where obs_eq holds: the recovery itself can return TriggerSync ---------- *)
+(* vote_counter.go compares a FUTURE height's precommits with the CURRENT height's quorum.  Validator 3; total
+   voting power 4 at height 1 (quorum 3), 2 at height 2 (quorum 2).  At height 1 it logs two precommits for
+   (height 3, round 0, id 5) - no quorum of 3 -, commits height 1, starts height 2, a propose timeout flushes.
+   Killed at the end and restarted at height 2: the replay processes the two precommits at height 2, where two ARE
+   a quorum: TriggerSync, lastTriggerSync 0 -> 3.  Every hypothesis of the replay theorems holds; the recovered
+   state is obs_eq to the state the life ended in (C13_replay_prefix) but not st_sim.  Harmless (the restarted node
+   asks the block fetcher for a height it has a quorum for), and it is why st_sim is conditional on replay_quiet. *)
+Definition pw_cfg : cfg :=
+  mkCfg 3 (fun h => if h =? 2 then 2 else 4) (fun _ a => if a <? 4 then 1 else 0) (fun _ r => Z.to_N (r mod 4)%Z)
+        (fun _ => true) (fun v => v) (fun _ => 0).
+Definition pw_env : env := mkEnv pw_cfg (fun _ _ _ => 7).
+Definition pw_ins : list input :=
+  [IPrecommit (mkV 3 0 0 (Some 5)); IPrecommit (mkV 3 0 1 (Some 5));
+   IProposal (mkP 1 0 0 (-1) 11); IPrevote (mkV 1 0 0 (Some 11)); IPrevote (mkV 1 0 1 (Some 11));
+   IPrecommit (mkV 1 0 0 (Some 11)); IPrecommit (mkV 1 0 1 (Some 11)); ITimeout SPropose 2 0].
+Theorem C13_recovery_trigger_sync_refuted :
+  value_deterministic pw_env /\ quorum_positive pw_env /\ plain_run pw_env 1 pw_ins = true /\
+  (let effs := flat (snd (lifetime pw_env 1 [] 0 pw_ins)) in
+   let k := length effs in
+   let H' := resume_height 1 (firstn k effs) in let D' := crash_at k effs [] in
+   H' = 2 /\ replay_quiet pw_env H' D' 0 = false /\
+   s_lts (d_sm (fst (recover pw_env H' D' 0))) = 3 /\ s_lts (d_sm (fst (lifetime pw_env 1 [] 0 pw_ins))) = 0 /\
+   st_sim_b (d_sm (fst (recover pw_env H' D' 0))) (d_sm (fst (lifetime pw_env 1 [] 0 pw_ins))) = false).
+Proof.
+  split; [intros h r n m; reflexivity|]. split; [intro h; unfold pw_env, pw_cfg; simpl; destruct (h =? 2); vm_compute; reflexivity|].
+  vm_compute. repeat split; reflexivity.
+Qed.
+
+(* ---------- the refuting runs of C13 and of C12 are the same runs ---------- *)
+(* stale, unlogged timeout: the calls the driver makes in C13_stale_timeout_needed are the inputs of
+   C12_wal_replay_stale_timeout_refuted; C12's log discipline (wal_disciplined) fails on the last one, C13's
+   plain_run / logged_first too; C12: the replay of the log stays at height 1; C13: a process killed between the
+   flush and the commit callback of that call and restarted from the log stays at height 1 and does not commit *)
+Example C13_stale_timeout_same_run_as_C12 :
+  map fst (snd (lifetime ex_env3 1 [] 0 (stale_ins ++ [ITimeout SPropose 1 1]))) =
+    map LIn (C12.Props.stale_ins ++ [ITimeout SPropose 1 1]) ++ [LIn (IStart 0)] /\
+  wal_disciplined (cfg_at ex_env3 1 0 0) (init_state 1) (C12.Props.stale_ins ++ [ITimeout SPropose 1 1]) = false /\
+  wal_disciplined (cfg_at ex_env3 1 0 0) (init_state 1) C12.Props.stale_ins = true /\
+  plain_run ex_env3 1 stale_ins = true /\ plain_run ex_env3 1 (stale_ins ++ [ITimeout SPropose 1 1]) = false /\
+  s_h (C12.Props.replayed (C12.Props.ex_cfg 3) 1 (C12.Props.stale_ins ++ [ITimeout SPropose 1 1])) = 1 /\
+  (let effs := flat (snd (lifetime ex_env3 1 [] 0 (stale_ins ++ [ITimeout SPropose 1 1]))) in
+   nth_error effs 27 = Some (CommitCb 1 11) /\
+   let pre := firstn 27 effs in
+   resume_height 1 pre = 1 /\
+   s_h (d_sm (fst (recover ex_env3 1 (crash_at 27 effs []) 0))) = 1 /\
+   commits_in (flat (snd (recover ex_env3 1 (crash_at 27 effs []) 0))) = [] /\
+   s_h (d_sm (fst (lifetime ex_env3 1 [] 0 (stale_ins ++ [ITimeout SPropose 1 1])))) = 2).
+Proof. vm_compute. repeat split; reflexivity. Qed.
+
+(* unlogged precommit that completes a future-height quorum: C13_future_quorum_precommit_lost is
+   C12_wal_replay_same_state_refuted (three precommits for (2, 0, id 5) to validator 3 at height 1) *)
+Example C13_future_quorum_same_run_as_C12 :
+  map fst (snd (lifetime ex_env3 1 [] 0 (firstn 3 fut_ins))) = map LIn C12.Props.trig_ins /\
+  wal_disciplined (cfg_at ex_env3 1 0 0) (init_state 1) C12.Props.trig_ins = false /\
+  plain_run ex_env3 1 (firstn 3 fut_ins) = false /\ plain_run ex_env3 1 (firstn 2 fut_ins) = true /\
+  s_lts (d_sm (fst (lifetime ex_env3 1 [] 0 (firstn 3 fut_ins)))) = 2 /\
+  s_lts (fst (run (C12.Props.ex_cfg 3) (init_state 1) C12.Props.trig_ins)) = 2.
+Proof. vm_compute. repeat split; reflexivity. Qed.
+
+(* Value() asked again while replaying Start: C13_proposer_refuted is C12_wal_replay_value_needed at the level of the
+   driver.  The environment of the restarted process (one earlier Value() call) is not cfg_same to the first
+   one's - cs_value fails at call index 0 -, with the reproducible application it is (cfg_at_same, which is what
+   C13_height_round_replay_by_C12 uses) *)
+Example C13_proposer_value_same_as_C12 :
+  c_value_at (cfg_at ex_env_fresh 1 0 0) 0 = 7 /\ c_value_at (cfg_at ex_env_fresh 1 0 1) 0 = 8 /\
+  wal_disciplined (cfg_at ex_env_fresh 1 0 0) (init_state 1) [IStart 0] = true /\
+  votes_of Prevote (all_actions (snd (run (cfg_at ex_env_fresh 1 0 0) (init_state 1) [IStart 0]))) = [mkV 1 0 0 (Some 7)] /\
+  votes_of Prevote (replay_actions (snd (replay_wal (cfg_at ex_env_fresh 1 0 1) (init_state 1)
+     (wal_written (snd (run (cfg_at ex_env_fresh 1 0 0) (init_state 1) [IStart 0])))))) = [mkV 1 0 0 (Some 8)] /\
+  votes_of Prevote (replay_actions (snd (replay_wal (cfg_at ex_env_fixed 1 0 1) (init_state 1)
+     (wal_written (snd (run (cfg_at ex_env_fixed 1 0 0) (init_state 1) [IStart 0])))))) = [mkV 1 0 0 (Some 7)].
 Proof. vm_compute. repeat split; reflexivity. Qed.
